@@ -14,6 +14,13 @@ and a real `WorkerPool`):
   kind 'shutdown': 'sharded' where one worker is STOPPED (stop()/SIGTERM) while its generator is inside a slow next():
                    the in-flight next_batch and every init_generator it still receives answer "shutdown requested"
                    (a RETRIABLE outcome: the run must go on with the other worker), then it goes away for real
+  kind 'acrejoin': as_completed, NO call timeout: worker `first` dies with a call in flight (plan 'restart': the response is
+                   lost for good, the death is announced), the master's loop goes round, the worker is restarted and
+                   re-registers; only then every worker marked 'die_late' dies at its next call.  One worker is usable at
+                   every moment (a rejoined worker IS usable), so every task's result is owed exactly once.
+  `exc` (gen task / sharded+fail_at / ac+bad): the application error is a VALUE THE CODE SPECIAL-CASES - every exception the
+                   code under the property constructs or compares with, every class it names, carrying the texts it compares
+                   with (read off the source by harness.lib_prefetch_values, see harness.lib_sched_faults.specials)
   optional `lat` : [[worker, counted call index, ms], ..] - the REPLY of that call is held back (RPC latency / reply
                    order as an environment choice; harness.lib_sched_ext.ReplyLatency)
 Model: lean/MlModel/Model/Sched.lean (`AC`, `IT`), theorems lean/MlModel/Properties/C06.lean.
@@ -33,13 +40,18 @@ import collections
 import itertools
 import queue
 
+import os
+
 from harness import lib_sched as L
 from harness import lib_sched_ext as X
+from harness import lib_sched_faults as F
 from harness.core import err_kind
 
 PID = 'C06'
 TITLE = 'Distributed runs survive worker timeouts and deaths: no lost or doubled work'
-LEAN_MODULES = ['MlModel.Properties.C06', 'MlModel.Properties.C06Val', 'MlModel.Witness.C06']
+LEAN_MODULES = ['MlModel.Properties.C06', 'MlModel.Properties.C06Val', 'MlModel.Properties.C06Rejoin', 'MlModel.Witness.C06',
+                'MlModel.Witness.C06Rejoin']
+REPO = os.environ.get('VERIF_REPO', '/repo')
 TRUSTED = [
     'the courier transport is harness/fakecourier (in-process): at-most-once handler execution, deadline errors carry '
     'code 4, an unreachable server completes no call, arguments/results are passed by reference (the repo pickles them)',
@@ -50,7 +62,9 @@ TRUSTED = [
     'of the model under some schedule"',
 ]
 ASSUMPTIONS = [
-    'a restarted worker is seen alive again only after the master has dealt with the call that hung on it',
+    'a restarted worker is seen alive again only after the master has dealt with the call that hung on it '
+    "(kind 'acrejoin': after the master's loop has gone round 40 times since the announced death - whatever it did "
+    'with the call)',
     'max_parallelism = 1, iterate_batch_size = 1 (defaults); one pool per run',
 ]
 RULE = ('sharded runs: every single-fault plan (worker x call index 0..5 x {deadline, deadline_after, die, restart, app_error}) '
@@ -85,6 +99,11 @@ def gen_cases(ctx):
   for c in _gen_cases(ctx):
     ctx.count('kind', c['kind'])
     ctx.count('workers', c['workers'])
+    if c['kind'] == 'acrejoin':
+      ctx.count('tasks', c['tasks'])
+      ctx.count('rejoin_first_die_at', c['plans'][c['first']].index('restart'))
+      yield c
+      continue
     if 'shards' in c:
       ctx.count('shards', c['shards'])
     if 'tasks' in c:
@@ -107,8 +126,17 @@ def gen_cases(ctx):
       ctx.count('latency', len(c['lat']))
     if c['kind'] == 'gen':
       for t in c['tasks']:
-        ctx.count('gen_return', X.canon_value(X.RETURNS[t['rc']]))
+        if 'exc' in t:
+          ctx.count('special_app_error', f"gen:{t['exc'][1]}{_tok_args(t['exc'])}")
+        else:
+          ctx.count('gen_return', X.canon_value(X.RETURNS[t['rc']]))
+    elif c.get('exc'):
+      ctx.count('special_app_error', f"{c['kind']}:{c['exc'][1]}{_tok_args(c['exc'])}")
     yield c
+
+
+def _tok_args(tok):
+  return '(' + ', '.join(repr(F.V.decode(a)) for a in tok[2]) + ')'
 
 
 def _gen_cases(ctx):
@@ -212,6 +240,45 @@ def _gen_cases(ctx):
       plans[rng.randrange(w)] = [('restart' if f == 'die' else f) for f in plans[0]]
     yield dict(kind='gen', workers=w, plans=[_strip(p) for p in plans], threshold=rng.choice([0, 1, 3, 50]),
                tasks=[dict(k=rng.randrange(0, 3), rc=rng.choice(X.FALSY + list(range(nret)))) for _ in range(nt)])
+  # --- application errors whose VALUE the code special-cases (read off the source of the working tree)
+  toks, _ = F.specials(REPO)
+  for j, tok in enumerate(toks):
+    w = 1 + j % 2
+    yield dict(kind='gen', workers=w, plans=[[] for _ in range(w)], threshold=3,
+               tasks=[dict(k=2, rc=9), dict(k=j % 3, exc=tok)][::(1 if j % 2 else -1)])
+  hard = [t for t in toks if not F.is_retriable_class(t)]
+  for j, tok in enumerate(hard):
+    if quick and j % 2 and tok[1] != 'ValueError':
+      continue
+    s_, n_ = [(1, 2), (2, 3), (2, 4)][j % 3]
+    yield dict(kind='sharded', workers=1 + j % 2, shards=s_, n=n_, pipe=('p0', 'p1', 'p2')[j % 3],
+               plans=[[] for _ in range(1 + j % 2)], threshold=3, fail_at=j % n_, exc=tok)
+    yield dict(kind='ac', workers=1 + j % 2, tasks=3, plans=[[] for _ in range(1 + j % 2)], bad=[j % 3], ignore=False,
+               exc=tok)
+  for _ in range(10 if quick else 200):     # a special application error next to transport faults
+    tok = rng.choice(toks)
+    w = rng.choice([1, 2, 2, 3])
+    plans = [['ok'] * 6 for _ in range(w)]
+    for _ in range(rng.choice([0, 1, 2])):
+      plans[rng.randrange(w)][rng.randrange(6)] = rng.choice(['deadline', 'deadline_after', 'restart'])
+    nt = rng.randrange(1, 4)
+    tasks = [dict(k=rng.randrange(0, 3), rc=rng.randrange(nret)) for _ in range(nt)]
+    tasks.insert(rng.randrange(nt + 1), dict(k=rng.randrange(0, 3), exc=tok))
+    yield dict(kind='gen', workers=w, plans=[_strip(p) for p in plans], threshold=rng.choice([3, 50]), tasks=tasks)
+  # --- die mid-call, REJOIN, then the remaining workers are lost (no call timeout)
+  for (w, t) in ([(2, 3), (2, 5), (3, 4)] if quick else [(2, 2), (2, 3), (2, 5), (3, 4), (3, 6), (4, 6)]):
+    for first in range(w if not quick else 2):
+      for at in (0, 1, 2):
+        plans = [['die_late'] for _ in range(w)]
+        plans[first] = ['ok'] * at + ['restart']
+        yield dict(kind='acrejoin', workers=w, tasks=t, first=first, plans=plans, slow=0.04)
+  for _ in range(6 if quick else 150):
+    w = rng.choice([2, 2, 3])
+    first = rng.randrange(w)
+    plans = [['die_late'] for _ in range(w)]
+    plans[first] = ['ok'] * rng.randrange(0, 4) + ['restart']
+    yield dict(kind='acrejoin', workers=w, tasks=rng.randrange(3, 7), first=first, plans=plans,
+               slow=rng.choice([0.03, 0.04, 0.05]))
   # --- a worker stopped while its generator is inside a slow next() (shutdown replies are retriable)
   for (s, n, pipe) in ([(2, 4, 'p0'), (3, 6, 'p1'), (2, 5, 'p3'), (3, 7, 'p2')] if quick else
                        [(s, n, p) for s in (2, 3) for n in (4, 5, 7) for p in ('p0', 'p1', 'p2', 'p3')]):
@@ -279,13 +346,16 @@ def _run_impl(case):
     obs = run_gen(case)
   elif kind == 'ac':
     obs = run_ac(case)
+  elif kind == 'acrejoin':
+    obs = run_acrejoin(case)
   elif kind == 'run':
     return run_run(case)
   else:
     raise ValueError(kind)
   obs['kind'] = kind
   obs['faultfree'] = all(f == 'ok' for p in case['plans'] for f in p) and not case.get('bad') \
-      and case.get('fail_at') is None and kind not in ('f21', 'shutdown')
+      and case.get('fail_at') is None and kind not in ('f21', 'shutdown', 'acrejoin') \
+      and not any('exc' in t for t in (case['tasks'] if kind == 'gen' else []))
   obs['proj'] = project(case, obs)     # the observation in the model's vocabulary (used by `compare`)
   return obs
 
@@ -363,8 +433,12 @@ def run_sharded(case):
       kw = dict(n=case['n'], pipe=case['pipe'])
       if case.get('fail_at') is not None:
         kw['fail_at'] = case['fail_at']
+      define = L.define_pipeline
+      if case.get('exc') is not None:
+        kw['exc'] = case['exc']
+        define = F.define_pipeline_exc
       for b in ns.orchestrate.sharded_pipelines_as_iterator(
-          cl.pool, L.define_pipeline, num_shards=case['shards'], result_queue=rq,
+          cl.pool, define, num_shards=case['shards'], result_queue=rq,
           retry_threshold=case['threshold'], **kw):
         batches.append(b)
 
@@ -407,7 +481,8 @@ def run_gen(case):
   cl = L.Cluster(case['workers'], case['plans'])
   q = queue.SimpleQueue()
   T = ns.lazy_fns.trace
-  tasks = [T(X.gen_task)(i, t['k'], t['rc']) for i, t in enumerate(case['tasks'])]
+  tasks = [T(F.gen_task_exc)(i, t['k'], t['exc']) if 'exc' in t else T(X.gen_task)(i, t['k'], t['rc'])
+           for i, t in enumerate(case['tasks'])]
   out = []
   lat = _latency(cl, case)
   try:
@@ -499,7 +574,8 @@ def run_ac(case):
   cl = L.Cluster(case['workers'], case['plans'], prefetched=False)
   T = ns.lazy_fns.trace
   slow = case.get('slow', 0)
-  tasks = [T(L.FailAt(i))(i) if i in case['bad'] else (T(L.slow_double)(i, slow) if slow else T(L._double)(i))
+  bad_fn = (lambda i: F.FailWith(i, case['exc'])) if case.get('exc') is not None else L.FailAt
+  tasks = [T(bad_fn(i))(i) if i in case['bad'] else (T(L.slow_double)(i, slow) if slow else T(L._double)(i))
            for i in range(case['tasks'])]
   out = []
   try:
@@ -510,6 +586,28 @@ def run_ac(case):
     hang, _, exc = L.run_guarded(body, TIMEOUT)
     return dict(outcome=outcome_of(hang, exc), yielded=sorted(int(x) for x in out), acquired=cl.acquired(),
                 faults=dict(cl.delivered()), rejoins=cl.rejoins)
+  finally:
+    cl.close()
+
+
+def run_acrejoin(case):
+  """as_completed (default: no call timeout) under 'die mid-call, rejoin, then the remaining workers are lost'."""
+  ns = L.setup()
+  cl = F.RejoinCluster(case['workers'], case['plans'], prefetched=False)
+  T = ns.lazy_fns.trace
+  tasks = [T(L.slow_double)(i, case.get('slow', 0.01)) for i in range(case['tasks'])]
+  out = []
+  try:
+    def body():
+      for r in ns.orchestrate.as_completed(cl.pool, iter(tasks)):
+        out.append(r)
+
+    hang, _, exc = L.run_guarded(body, TIMEOUT)
+    killed = {int(k): int(v) for k, v in cl.killed_at.items()}
+    late_lost = sorted(i for i in killed if i != case['first'])
+    return dict(outcome=outcome_of(hang, exc), yielded=sorted(int(x) for x in out), acquired=cl.acquired(),
+                faults=dict(cl.delivered()), rejoins=cl.rejoins, killed_at=sorted(killed.items()), late_lost=late_lost,
+                alive_at_end=sorted(i for i in range(case['workers']) if not cl.dead[i]))
   finally:
     cl.close()
 
@@ -544,6 +642,8 @@ def oracle(case, obs):
     return oracle_gen(case, obs)
   if kind == 'ac':
     return oracle_ac(case, obs)
+  if kind == 'acrejoin':
+    return oracle_acrejoin(case, obs)
   if kind == 'run':
     if obs['outcome'] == 'hang':
       return 'WorkerPool.run did not come back'
@@ -596,8 +696,9 @@ def oracle_sharded(case, obs):
 def oracle_gen(case, obs):
   """Every task's result is delivered exactly once - whatever the result is (0, '', [], {}, None are results)."""
   out = obs['outcome']
-  want = collections.Counter(X.canon_value(X.RETURNS[t['rc']]) for t in case['tasks'])
+  want = collections.Counter(X.canon_value(X.RETURNS[t['rc']]) for t in case['tasks'] if 'exc' not in t)
   got = collections.Counter(obs['results'])
+  failing = [t['exc'] for t in case['tasks'] if 'exc' in t]
   want_b = collections.Counter(100 * i + j for i, t in enumerate(case['tasks']) for j in range(t['k']))
   got_b = collections.Counter(obs['batches'])
   app_errors = obs['faults'].get('app_error', 0)
@@ -609,7 +710,20 @@ def oracle_gen(case, obs):
     return f"{obs['after_marker']} items on the result queue after its end marker"
   if out == 'hang':
     if usable_by_plan(case['plans'], case['workers']):
+      if failing:
+        return (f'a task fails with {_tok_text(failing[0])} but the run never ends: the task error does not surface '
+                '(the run hangs although a worker stays usable)')
       return 'the run hangs although a worker stays usable'
+    return None
+  if failing:
+    # a task that fails with an application error: the run must END WITH AN ERROR, whatever the value of the error is
+    # (an error that IS a TimeoutError is, by the code's own convention, a retriable outcome: it may exhaust the budget)
+    if out == 'returned':
+      return (f'a task fails with {_tok_text(failing[0])} but the iteration ended normally: the task error was '
+              'swallowed (its result is silently missing)')
+    if out == 'TimeoutError' and _timeouts(obs) <= case['threshold'] and not any(F.is_retriable_class(t) for t in failing):
+      return (f"TimeoutError although only {_timeouts(obs)} timeouts happened (retry_threshold={case['threshold']}) "
+              f'and the task error {_tok_text(failing[0])} is not a timeout')
     return None
   if obs['markers'] != 1:
     return f"{obs['markers']} end markers on the result queue, expected exactly one"
@@ -633,6 +747,29 @@ def oracle_gen(case, obs):
       return 'RuntimeError although no non-retriable error was injected'
     return None
   return f'unexpected exception kind {out}'
+
+
+def _tok_text(tok):
+  return f'{tok[1]}{_tok_args(tok)}'
+
+
+def oracle_acrejoin(case, obs):
+  """One worker is usable at every moment (the others until the first one is back, the rejoined one from then on):
+  every task's result is delivered exactly once, no error, no hang."""
+  want = collections.Counter(2 * i for i in range(case['tasks']))
+  got = collections.Counter(obs['yielded'])
+  out = obs['outcome']
+  story = (f"worker {case['first']} died with a call in flight and rejoined ({obs['rejoins']} rejoin(s)), then "
+           f"workers {obs['late_lost']} were lost; usable at the end: {obs['alive_at_end']}")
+  if got - want:
+    return f'results delivered twice or foreign: {sorted((got - want).elements())} ({story})'
+  if out == 'hang':
+    return f'as_completed did not come back although a worker is usable: {story}; delivered {sorted(got.elements())}'
+  if out == 'returned':
+    if want - got:
+      return f'results silently missing: {sorted((want - got).elements())} ({story})'
+    return None
+  return f'as_completed raised {out} although a worker was usable at every moment and no task fails ({story})'
 
 
 def oracle_ac(case, obs):
@@ -668,6 +805,8 @@ def oracle_ac(case, obs):
     if not errors or case.get('ignore'):
       return 'a task exception surfaced although none was injected (or failures were to be ignored)'
     return None
+  if case.get('exc') is not None and case['bad'] and not case.get('ignore'):
+    return None              # the task's own (special-valued) exception, or its transport wrapping: an error surfaced
   return f'unexpected exception kind {out}'
 
 
@@ -684,6 +823,16 @@ def _model_plans(case, obs=None):
 
 def model_requests_obs(case, obs):
   kind = case['kind']
+  if kind == 'acrejoin':
+    plans = [[] for _ in range(case['workers'])]
+    for w, at in obs.get('killed_at', []):
+      plans[w] = ['ok'] * at + (['restart'] if w == case['first'] else ['die'])
+    req = dict(model='sched', workers=case['workers'], tasks=case['tasks'], plans=plans, bad=[], ignore_failures=False)
+    if case['workers'] <= 2 and case['tasks'] <= 3:
+      return [dict(req, op='ac_explore', cap=60000)]
+    return [dict(req, op='ac_sample', runs=60, seed=len(str(case)))]
+  if kind == 'gen' and any('exc' in t for t in case['tasks']):
+    return []       # errors raised by the task itself are not in the model's vocabulary (oracle only)
   if kind in ('sharded', 'f21'):
     nb = L.shard_sizes(case['n'], case['shards'])
     plans = _model_plans(case, obs)
@@ -734,14 +883,14 @@ def project(case, obs):
   """The real run's observation in the model's vocabulary."""
   kind = case['kind']
   out = obs['outcome']
-  if kind == 'ac':
+  if kind in ('ac', 'acrejoin'):
     f = lambda v: v // 2
     return dict(outcome={'Exception': 'TaskError'}.get(out, out), yielded=sorted(f(v) for v in obs['yielded']))
   if kind == 'gen':
     got = collections.Counter(obs['batches'])
     complete = all(got[100 * i + j] >= 1 for i, t in enumerate(case['tasks']) for j in range(t['k']))
     return dict(outcome=out, values=obs['results'], complete=complete,
-                task_values=[X.canon_value(X.RETURNS[t['rc']]) for t in case['tasks']])
+                task_values=[X.canon_value(X.RETURNS[t['rc']]) if 'exc' not in t else None for t in case['tasks']])
   nb = L.shard_sizes(case['n'], case['shards'])
   starts = list(itertools.accumulate([0] + nb))
   fn = L.row_fn(case['pipe'])
@@ -767,7 +916,7 @@ def compare(obs, mobs):
   if p['outcome'] == 'hang':
     return None if mobs['stuck'] else 'the real run hangs but no stuck state is reachable in the model'
   for t in mobs['terminals']:
-    if obs['kind'] == 'ac':
+    if obs['kind'] in ('ac', 'acrejoin'):
       if t['outcome'] == p['outcome'] and t['yielded'] == p['yielded']:
         return None
     elif obs['kind'] == 'gen':
@@ -797,7 +946,8 @@ def nontrivial(case, obs):
   _cover(case, obs)
   return any(f.get(k, 0) for k in ('deadline', 'hung', 'app_error', 'cancelled')) or bool(case.get('bad')) \
       or case.get('fail_at') is not None or case['kind'] in ('f21', 'shutdown') \
-      or (case['kind'] == 'gen' and any(t['rc'] in X.FALSY for t in case['tasks']))
+      or (case['kind'] == 'acrejoin' and bool(obs.get('rejoins'))) \
+      or (case['kind'] == 'gen' and any('exc' in t or t['rc'] in X.FALSY for t in case['tasks']))
 
 
 # ------------------------------------------------------------------------------------------ promised coverage
@@ -806,7 +956,11 @@ _ARMS = collections.Counter()
 REQUIRED_ARMS = ['gen:falsy-result-delivered', 'gen:falsy-result-after-retry', 'gen:every-falsy-class',
                  'shutdown:init-answered-while-shutting-down', 'shutdown:next-answered-while-shutting-down',
                  'shutdown:run-completed', 'latency:reply-held-back', 'multi-agg:sharded-returned',
-                 'multi-agg:after-retry']
+                 'multi-agg:after-retry',
+                 'special-error:gen-every-special-value-surfaced', 'special-error:sharded-surfaced',
+                 'special-error:ac-surfaced', 'rejoin:died-mid-call-then-rejoined',
+                 'rejoin:others-lost-after-rejoin', 'rejoin:all-results-after-others-lost']
+_SPECIAL_SEEN = set()
 _FALSY_SEEN = set()
 
 
@@ -818,7 +972,7 @@ def _cover(case, obs):
   if kind != 'run' and oracle(case, obs) is not None:
     _ARMS['(oracle failed)'] += 1     # the verdict is a VIOLATION: the coverage promise is not what decides this run
   if kind == 'gen' and obs['outcome'] == 'returned':
-    fal = [t['rc'] for t in case['tasks'] if t['rc'] in X.FALSY]
+    fal = [t['rc'] for t in case['tasks'] if 'exc' not in t and t['rc'] in X.FALSY]
     if fal:
       _ARMS['gen:falsy-result-delivered'] += 1
       _FALSY_SEEN.update(fal)
@@ -826,6 +980,21 @@ def _cover(case, obs):
         _ARMS['gen:every-falsy-class'] += 1
       if retried:
         _ARMS['gen:falsy-result-after-retry'] += 1
+  if kind == 'gen' and obs['outcome'] not in ('returned', 'hang'):
+    for t in case['tasks']:
+      if 'exc' in t:
+        _SPECIAL_SEEN.add(str(t['exc']))
+    if _SPECIAL_SEEN >= set(str(t) for t in F.specials(REPO)[0]):
+      _ARMS['special-error:gen-every-special-value-surfaced'] += 1
+  if case.get('exc') is not None and obs['outcome'] not in ('returned', 'hang'):
+    _ARMS[f'special-error:{kind}-surfaced'] += 1
+  if kind == 'acrejoin':
+    if obs.get('rejoins'):
+      _ARMS['rejoin:died-mid-call-then-rejoined'] += 1
+      if obs.get('late_lost'):
+        _ARMS['rejoin:others-lost-after-rejoin'] += 1
+        if obs['outcome'] == 'returned' and len(obs['late_lost']) == case['workers'] - 1:
+          _ARMS['rejoin:all-results-after-others-lost'] += 1
   if kind == 'shutdown':
     if obs.get('shutdown_inits'):
       _ARMS['shutdown:init-answered-while-shutting-down'] += 1
@@ -860,6 +1029,10 @@ def finding(case, what):
 def shrink(case, still_fails):
   """Drop faults one at a time, then shrink sizes."""
   cur = dict(case)
+  if cur['kind'] == 'acrejoin':
+    while cur['tasks'] > 1 and still_fails(dict(cur, tasks=cur['tasks'] - 1)):
+      cur = dict(cur, tasks=cur['tasks'] - 1)
+    return cur
   changed = True
   while changed:
     changed = False
@@ -883,7 +1056,7 @@ def shrink(case, still_fails):
       else:
         i += 1
     for i, t in enumerate(cur['tasks']):
-      if t['k']:
+      if t['k'] and 'exc' not in t:
         cand = dict(cur, tasks=[dict(u, k=0) if j == i else u for j, u in enumerate(cur['tasks'])])
         if still_fails(cand):
           cur = cand
@@ -891,6 +1064,10 @@ def shrink(case, still_fails):
 
 
 def neighbours(case, rng):
+  if case['kind'] == 'acrejoin':
+    for t in range(2, 7):
+      yield dict(case, tasks=t)
+    return
   for _ in range(40):
     c = dict(case, plans=[list(p) for p in case['plans']])
     w = rng.randrange(case['workers'])
